@@ -216,4 +216,11 @@ def run(ctx):
     ctx.rule("C03-INDEP", "draws of different batches are independent: run_worker gives task i its own spawned child generator (shared implementation with C10-SPAWN).")
     from .C10 import check_spawn
     check_spawn(_Relabel(ctx, {"C10-SPAWN": "C03-INDEP"}))
+    ctx.rule("C03-API", "n_linear_samples reaches the kernel from every public entry point (shared implementation with C02-API and C14-BUDGET): API -> helper -> make_full_samples* -> worker -> kernel.")
+    from .C02 import check_api
+    check_api(_Relabel(ctx, {"C02-API": "C03-API"}))
+    for mod, q in (("thejoker.likelihood_helpers", "make_full_samples_inmem"),):
+        f = ctx.prog.func(mod, q, "C03-API")
+        kc = [c for c in A.calls_in(f) if A.last_attr(c) == "batch_get_posterior_samples"]
+        ctx.check("C03-API", f, "%s hands n_linear_samples and rng to the kernel" % q, len(kc) == 1 and [canon(a) for a in kc[0].args[1:3]] == ["n_linear_samples", "rng"], "kernel call: %s" % (A.unparse(kc[0])[:80] if kc else None), key=q + ":kernel")
     ctx.assume("numpy's Generator.multivariate_normal(mean, cov, size) returns iid N(mean, cov) draws; dsysv solves the symmetric system")
